@@ -66,6 +66,9 @@ Value& MemberCONCATExpression::value(Context& ctx) const
         }
         else
         {
+          /* the null element of a container keeps the type of the container */
+          if (val.lvalue() && val.type() != Type::NO_TYPE && val.type() != a0.type())
+            throw RuntimeError(EXC_RT_TYPE_MISMATCH_S, val.type().typeName().c_str());
           if (a0.lvalue())
             val.swap(a0.clone().to_lvalue(val.lvalue()));
           else
@@ -96,7 +99,15 @@ Value& MemberCONCATExpression::value(Context& ctx) const
       if (_exp->isVarName())
         ctx.storeVariable(_exp->symbolId(), Value(rv));
       else
+      {
+        /* the null element of a container keeps the type of the container */
+        if (val.lvalue() && val.type() != Type::NO_TYPE && val.type() != rv->table_type())
+        {
+          delete rv;
+          throw RuntimeError(EXC_RT_TYPE_MISMATCH_S, val.type().levelDown().typeName().c_str());
+        }
         val.swap(Value(rv).to_lvalue(val.lvalue()));
+      }
       return val;
     }
 
